@@ -55,6 +55,11 @@ def run(tier, seed, replay):
             return True
         if isinstance(e, _ast0.IfExp):
             return small_status(e.body, depth) and small_status(e.orelse, depth)
+        # a truth value exits with 0 / 1
+        if isinstance(e, (_ast0.Compare, _ast0.BoolOp)) or (isinstance(e, _ast0.UnaryOp) and isinstance(e.op, _ast0.Not)) \
+                or (isinstance(e, _ast0.Constant) and isinstance(e.value, bool)) \
+                or (isinstance(e, _ast0.Call) and isinstance(e.func, _ast0.Name) and e.func.id in ("any", "all", "bool")):
+            return True
         if isinstance(e, _ast0.Call) and isinstance(e.func, _ast0.Name) and e.func.id in ("int", "bool") and len(e.args) == 1 \
                 and isinstance(e.args[0], (_ast0.Compare, _ast0.BoolOp, _ast0.UnaryOp)):
             return True
